@@ -31,11 +31,26 @@ rc, o = sh("git -C /repo worktree add --detach %s HEAD -q" % wt)
 assert rc == 0, o
 meta = {"property": pid, "seed": n, "repo_head": sh("git -C /repo rev-parse --short HEAD")[1].strip(), "ran": []}
 patch = os.path.join(out, "patch.diff")
-# demo files: untracked files of the agent's worktree
-rc, o = sh("git status --porcelain", cwd=src_wt)
-demos = [l[3:].strip() for l in o.splitlines() if l.startswith("??") and l.strip().endswith(".go")]
+reeval = not os.path.exists(src_wt)
+if reeval:
+    # re-evaluation of a kept seed: patch and demo files come from /verif/seeded/<ID>-<n>
+    old = json.load(open(os.path.join(dst, "meta.json")))
+    patch = os.path.join(dst, "patch.diff")
+    src_wt = "/tmp/seedsrc-%s-%s" % (pid, n)
+    shutil.rmtree(src_wt, ignore_errors=True)
+    demos = []
+    for d in old.get("demo_files", []):
+        saved = os.path.join(dst, os.path.basename(os.path.dirname(d)) + "__" + os.path.basename(d))
+        os.makedirs(os.path.join(src_wt, os.path.dirname(d)), exist_ok=True)
+        shutil.copy(saved, os.path.join(src_wt, d))
+        demos.append(d)
+    meta["history"] = old.get("history", []) + [{"checks": old.get("checks"), "repo_head": old.get("repo_head")}]
+else:
+    # demo files: untracked files of the agent's worktree
+    rc, o = sh("git status --porcelain", cwd=src_wt)
+    demos = [l[3:].strip() for l in o.splitlines() if l.startswith("??") and l.strip().endswith(".go")]
 touched = sorted(set(os.path.dirname(m) for m in re.findall(r"(?m)^\+\+\+ b/(\S+)", open(patch).read())))
-if not demos:
+if not demos and not reeval:
     # the agent delivered the demo only in the out directory: put it next to the change
     for root, _, files in os.walk(out):
         for fn in files:
@@ -96,9 +111,14 @@ for c in checks:
                          "labels": sorted(set(re.findall(r"violation (\S+) ", o)))[:12]}
     print(c, "exit", rc, lines[:6], meta["checks"][c]["labels"])
 os.makedirs(dst, exist_ok=True)
-shutil.copy(patch, os.path.join(dst, "patch.diff"))
+if os.path.abspath(patch) != os.path.abspath(os.path.join(dst, "patch.diff")):
+    shutil.copy(patch, os.path.join(dst, "patch.diff"))
 for d in demos:
-    shutil.copy(os.path.join(src_wt, d), os.path.join(dst, os.path.basename(os.path.dirname(d)) + "__" + os.path.basename(d)))
+    target = os.path.join(dst, os.path.basename(os.path.dirname(d)) + "__" + os.path.basename(d))
+    if os.path.abspath(os.path.join(src_wt, d)) != os.path.abspath(target):
+        shutil.copy(os.path.join(src_wt, d), target)
+if reeval:
+    shutil.rmtree(src_wt, ignore_errors=True)
 if os.path.exists(os.path.join(out, "README.md")):
     shutil.copy(os.path.join(out, "README.md"), os.path.join(dst, "README.md"))
 meta["demo_files"] = demos
